@@ -332,6 +332,16 @@ func (p *idp) token(w http.ResponseWriter, r *http.Request, idpID string) {
 	ev["mode"] = mode
 	ev["status"] = status
 	ev["issued"] = issued
+	ev["keySetNow"] = "k12" // the key set configured for the filter when this answer was given
+	if ks := d.keySet(); ks == "k3" && !d.env.spec.RealJwks {
+		ev["keySetNow"] = "k3"
+	} else if ks == "" || d.env.spec.RealJwks {
+		if lgf, ok := ev["f"].(string); ok {
+			if fs := d.env.fspec[lgf]; fs != nil && fs.KeySet == "k3" {
+				ev["keySetNow"] = "k3"
+			}
+		}
+	}
 	if g.check == nil || !g.check.quiet {
 		d.rec.emit(ev)
 	}
@@ -465,6 +475,9 @@ func (p *idp) mint(ans *AnsSpec, grant string, lg *login, old *rtRec) (map[strin
 	}
 	// the key set configured for the filter this login belongs to (a scenario-wide key change overrides it)
 	effective := d.keySet()
+	if d.env.spec.RealJwks {
+		effective = "" // the key provider object itself serves the filter: a key-set directive of the scenario does not reach it
+	}
 	if effective == "" {
 		if fs := d.env.fspec[lg.f]; fs != nil {
 			effective = fs.KeySet
@@ -478,6 +491,14 @@ func (p *idp) mint(ans *AnsSpec, grant string, lg *login, old *rtRec) (map[strin
 	idTok, sigOK := mintID(ts)
 	if sigOK && class == "good" && ans.Mode == "honest" {
 		p.lastHonest = idTok // (the caller holds p.mu)
+	}
+	// which of the provider's key families signed it honestly (a kept token must still verify when the configured set changes)
+	signedBy := "other"
+	if sigOK {
+		signedBy = "k12"
+		if class == "goodK3" || ts.SignKey == "k3" {
+			signedBy = "k3"
+		}
 	}
 	switch {
 	case class == "goodK3":
@@ -507,7 +528,7 @@ func (p *idp) mint(ans *AnsSpec, grant string, lg *login, old *rtRec) (map[strin
 	issued := map[string]any{"ex": true, "grant": grant}
 	if !ans.OmitID {
 		doc["id_token"] = idTok
-		issued["id"] = map[string]any{"ex": true, "sym": idSym, "class": class, "sigOK": sigOK, "audOK": audOK,
+		issued["id"] = map[string]any{"ex": true, "sym": idSym, "class": class, "sigOK": sigOK, "audOK": audOK, "signedBy": signedBy,
 			"nonce": nonceSym, "exp": now + int64(life), "login": lg.sidSym, "compact": isCompactJWT(idTok)}
 		if class == "expired" {
 			issued["id"].(map[string]any)["exp"] = now - 10
